@@ -1018,6 +1018,7 @@ func (a *Analysis) ruleOpValidity() {
 			} else {
 				why = append(why, "not-found for a registered identity")
 				a.add("C08", "C08.found", "registered", "op%d %s failed with not-found although everything it needs is registered: %v", op.GID, op.Op, op.Err)
+
 			}
 		}
 		if !just && a.nilFaultFired(-1) && (hasClass(op.Classes, ESingletonNotInit) || hasClass(op.Classes, ENilInstance)) {
@@ -1048,6 +1049,9 @@ func (a *Analysis) ruleOpValidity() {
 			a.add("C13", "C13.overlap", shape, "%s", msg)
 			a.add("C08", "C08.found", shape, "%s", msg)
 			a.add("C15", "C15.classes", shape, "%s", msg)
+			if pv, ok := m.Reg.Services[op.Op.Id]; ok && kind == OpResolve && m.regs[pv.Reg].Life == LSingleton && a.buildOK && !a.anyFault() && !overlap {
+				a.add("C01", "C01.same", regShape(m.regs[pv.Reg])+"/unresolvable", "op%d %s: singleton identity %s (r%d output %d) of a successfully built provider cannot be obtained: %v", op.GID, op.Op, op.Op.Id, pv.Reg, pv.OutIdx, firstLine(op.Err))
+			}
 		}
 	}
 }
